@@ -91,7 +91,7 @@ func main() {
 					failures = append(failures, failure{tc, "no well-formed response: " + err.Error()})
 					return
 				}
-				if resp.Status < 100 || resp.Status > 599 {
+				if resp.Status < 100 || resp.Status > 999 {
 					failures = append(failures, failure{tc, fmt.Sprintf("status %d out of range", resp.Status)})
 					return
 				}
@@ -237,6 +237,15 @@ func main() {
 				}
 				raw := string(env.PlainRequest(m, path, hs, nil))
 				send(tcase{Stream: "origin", Desc: backend, Raw: raw, Origin: ls, Status: curStatus}, m)
+			}
+			// origin status codes at and beyond the edges of what a server may send
+			for _, code := range []string{"000", "001", "099", "100", "101", "103", "199", "200", "226", "299", "304", "399", "499", "599", "600", "999", "1000", "20", "abc", "-10"} {
+				for _, m := range []string{"GET", "HEAD"} {
+					raw := []byte("HTTP/1.1 " + code + " Edge\r\nContent-Length: 2\r\nCache-Control: max-age=60\r\n\r\nok")
+					env.Origin.SetHandler(func(req e2elib.OriginRequest, n int) e2elib.Answer { return e2elib.Answer{Raw: raw, AbortAfter: -1} })
+					rq := string(env.PlainRequest(m, "/status-"+code+"-"+m, nil, nil))
+					send(tcase{Stream: "origin-status", Desc: backend, Raw: rq, Origin: []string{"status line: HTTP/1.1 " + code + " Edge"}}, m)
+				}
 			}
 			env.Close()
 
